@@ -190,6 +190,11 @@ func openCoroutine(in *Interp) {
 			args = nil
 		}
 	})
+	// hostyield(...): a host function that yields through the Go API (LState.Yield) two values of its own followed by its
+	// arguments; its results are the values of the next resume
+	in.reg(in.G, "hostyield", func(in *Interp, a []Value) []Value {
+		return in.yield(append([]Value{"host1", "host2"}, a...))
+	})
 	in.reg(C, "yield", func(in *Interp, a []Value) []Value {
 		return in.yield(append([]Value(nil), a...))
 	})
